@@ -70,6 +70,9 @@ func (P *Prog) verifyFunc(key string, sweepOnly bool) (res *FuncResult) {
 	x.params = map[string]Val{}
 	for _, p := range fn.Params {
 		v := x.freshVal(st, "p_"+p.Name(), p.Type())
+		if v.K == KPtr && v.Ptr != nil {
+			v.Ptr.Enc = false // parameters are passed by reference: the callee sees a plain object
+		}
 		fr.vals[p] = v
 		x.params[p.Name()] = v
 	}
@@ -147,6 +150,13 @@ func (x *Exec) atExit(st *State, fr *Frame, rets []Val, pos token.Pos) {
 		env.vars[k] = v
 	}
 	x.bindResults(x.fn, env, rets)
+	for _, pn := range x.con.Plain {
+		for i := range rets {
+			if (pn == fmt.Sprintf("result%d", i) || (pn == "result" && len(rets) == 1)) && rets[i].K == KPtr {
+				x.emit(st, "post", "plain."+pn, pn+" is not an interior pointer", sx(">=", x.termOf(rets[i]), "0"), x.con.Props, pos, fr)
+			}
+		}
+	}
 	for i, en := range x.con.Ensures {
 		g := x.evalSpec(en.E, env)
 		lbl := en.Label
